@@ -265,7 +265,14 @@ def r6(ctx):
     r4_table_needs_disjoint_keys(ctx)
 
 
+def r7(ctx):
+    from .c10 import r2b_dependent_at_any_depth
+
+    r2b_dependent_at_any_depth(ctx)
+
+
 RULES = [
+    ("C11.R7", "P1", r7, "value-dependence is recognised at any nesting depth"),
     ("C11.R1", "P1", r1_sibling_footprints, "siblings consult the same parameters"),
     ("C11.R2", "P1", r2_template_equals_check, "template = check"),
     ("C11.R3", "P1", r3_product_types, "product types: length and per-index tests on both sides"),
